@@ -355,6 +355,27 @@ static void deep_towers(void)
             explore_config();
         }
 }
+/* rich towers: k nested arrays, each level holding an object with an array-valued field before the inner array and a boolean after it */
+static void rich_towers(void)
+{
+    static uint8_t t[8192];
+    char label[100];
+    static const int ks[] = { 7, 8, 9, 15, 16, 17, 31, 32, 33, 63, 64, 65, 127, 128, 129, 253, 254 };
+    static const uint8_t el[] = { 0x40, 0x14, 0x01, 'x', 0x42, 0x10, 0x01, 0x43, 0x41 };
+    for (size_t ki = 0; ki < sizeof ks / sizeof ks[0]; ki++) {
+        if (!take()) continue;
+        int k = ks[ki];
+        size_t n = 0;
+        for (int i = 0; i < k; i++) { t[n++] = 0x42; memcpy(t + n, el, sizeof el); n += sizeof el; }
+        t[n++] = 0x10; t[n++] = 1;
+        for (int i = 0; i < k; i++) { t[n++] = 0x43; if (i < k - 1) t[n++] = 0x44; }
+        snprintf(label, sizeof label, "rich tower: %d nested arrays, an object with an array field and a boolean at every level", k);
+        vf_count(CT_TOWERS, 1);
+        IN = t; INLEN = n; INLABEL = label; KIND = VK_ARR; MD = 2;
+        vf_count(CT_INPUTS, 1);
+        explore_config();
+    }
+}
 static void on_trailing(const uint8_t *b, size_t n, int kind, const char *label, void *u)
 {
     (void) u;
@@ -394,6 +415,7 @@ static void worker(int w, int W, uint64_t start)
     DEPTHS = depths3; NDEPTHS = 3;
     towers();
     deep_towers();
+    rich_towers();
     vf_trailing_inputs(on_trailing, NULL);      /* a complete root followed by 1 .. 262144 junk bytes */
     /* values / names that need the 4-byte length prefix, and all their one-deviation mutants outside the payload interior */
     {
